@@ -26,6 +26,7 @@ STALL_SECONDS = 120
 COMPONENTS = {
     "real": ["biotite.application.application (Application, requires_state, AppState)",
              "biotite.application.localapp (LocalApp, cleanup_tempfile, get_version)",
+             "biotite.application.webapp (WebApp, RuleViolationError) as base class of the polling stub in half of its runs",
              "biotite.application.msaapp (MSAApp)", "biotite.application.util (map_sequence, map_matrix)",
              "biotite.application.clustalo.ClustalOmegaApp", "biotite.application.muscle.MuscleApp",
              "biotite.application.muscle.Muscle5App", "biotite.application.mafft.MafftApp",
@@ -33,7 +34,8 @@ COMPONENTS = {
              "real temporary files (tempfile.NamedTemporaryFile) in a run-private directory", "real os.chdir/getcwd"],
     "stub": ["time module seen by application.py -> virtual clock", "subprocess.Popen -> SimPopen (in-process scripted child)",
              "subprocess.run (version probe) -> scripted banner", "external MSA programs -> fake tools in /verif/sim/simworld.py",
-             "tempfile name sequence -> seeded", "StubLocalApp / StubPollApp: logic-free subclasses that drive the base classes alone"],
+             "tempfile name sequence -> seeded", "StubLocalApp / StubPollApp: logic-free subclasses that drive the base classes alone",
+             "web server of the WebApp flavour -> in-process rate limiter on the virtual clock (one contact per `gap` seconds)"],
 }
 RULE = ("Each run: the PRNG picks 1-2 wrappers (kind, sequence set, matrix, fault script, version banner), then up to 30 "
         "operations (create/start/join/cancel/state/setters/getters/align, clock advances, switching wrappers). "
@@ -43,6 +45,7 @@ ASSUMPTIONS = [
     "SimPopen reproduces the Popen semantics biotite relies on (poll/communicate/kill/returncode); checked against real processes by the conformance mode",
     "a fake tool acts on its files at its exit instant (no partially written file is visible while it runs)",
     "the life-cycle table in DESIGN.md Appendix A is the documented life cycle",
+    "a RuleViolationError ends no run: the wrapper keeps its state and resources and stays usable (webapp.py documents it as raised 'if the program continued')",
     "after a failed launch the state flag and the legality of further calls are unspecified; only resource invariants are checked",
 ]
 PROBES = ["join-while-running", "join-after-finished", "timeout-expired", "evaluate-failed-after-zero-exit",
@@ -101,7 +104,10 @@ def _gen_seqs(rng, kind):
         else:
             r = [rng.choice(letters) for _ in range(rng.randint(1, maxlen))]
         rows.append(r if t == "custom" else "".join(r))
-    return {"type": t, "rows": rows, "alphabet": alph, "container": rng.choice(["list", "list", "tuple", "generator"])}
+    return {"type": t, "rows": rows, "alphabet": alph, "container": rng.choice(["list", "list", "tuple", "generator"]),
+            # the sequences share one alphabet object, or carry equal alphabets that are distinct objects (what
+            # unpickling, deepcopy or building each sequence with its own Alphabet(...) gives)
+            "alph_objects": rng.choice(["shared", "shared", "shared", "equal_copies"])}
 
 
 def _gen_script(rng, kind, faulty):
@@ -367,9 +373,15 @@ def _make_sequences(sspec, ctor_fault):
         seqs = [NucleotideSequence(r, ambiguous=False) for r in rows]
     elif t == "nuc_amb":
         seqs = [NucleotideSequence(r, ambiguous=True) for r in rows]
+    elif sspec.get("alph_objects") == "equal_copies":
+        seqs = [GeneralSequence(Alphabet(list(sspec["alphabet"])), [sspec["alphabet"][c] for c in r]) for r in rows]
     else:
         alph = Alphabet(sspec["alphabet"])
         seqs = [GeneralSequence(alph, [sspec["alphabet"][c] for c in r]) for r in rows]
+    if sspec.get("alph_objects") == "equal_copies" and t != "custom":
+        import copy
+
+        seqs = [copy.deepcopy(s) if i % 2 else s for i, s in enumerate(seqs)]
     if sspec.get("container") == "tuple" and ctor_fault != "mixed_alphabets":
         seqs = tuple(seqs)
     if ctor_fault == "one_seq":
